@@ -291,6 +291,52 @@ theorem sendRemoteDirectly_ne_notFound (cfg : RouteCfg) (cm : ClusterMap) (rt : 
   intro h
   rcases sendRemoteDirectly_cases cfg cm rt s a with e | ⟨w, e⟩ | e | e <;> rw [e] at h <;> cases h
 
+/-- the redirection mark of a command (`UMFORWARD t`) is only consulted by `sendRemoteDirectly`: either
+the decision does not depend on it at all, or the slot is peer-owned under active redirection and both
+decisions are `sendRemoteDirectly` to the same peer (differing in the budget only) -/
+theorem routeSlot_rt_cases (cfg : RouteCfg) (cm : ClusterMap) (rt : Option Nat) (slot : Option Nat) :
+    routeSlot cfg cm rt slot = routeSlot cfg cm none slot ∨
+    ∃ s a, slot = some s ∧ cm.peerMap.get s = some a ∧ cm.remoteBackend.isSome = true ∧
+      routeSlot cfg cm rt slot = sendRemoteDirectly cfg cm rt s a ∧
+      routeSlot cfg cm none slot = sendRemoteDirectly cfg cm none s a := by
+  unfold routeSlot
+  by_cases hn : cm.clusterName.isEmpty = true
+  · rw [if_pos hn, if_pos hn]; exact Or.inl rfl
+  · rw [if_neg hn, if_neg hn]
+    cases slot with
+    | none => exact Or.inl rfl
+    | some s =>
+      simp only
+      cases hp : cm.peerMap.get s with
+      | none => exact Or.inl rfl
+      | some a =>
+        cases hr : cm.remoteBackend.isSome with
+        | false => exact Or.inl rfl
+        | true =>
+          simp only [if_true]
+          cases hl : cm.localMap.get s with
+          | none => exact Or.inr ⟨s, a, rfl, hp, trivial, rfl, rfl⟩
+          | some n =>
+            simp only
+            cases hc : cm.localNodes.contains n with
+            | true => exact Or.inl rfl
+            | false => exact Or.inr ⟨s, a, rfl, hp, trivial, rfl, rfl⟩
+
+/-- a command is executed locally iff it would be without the redirection mark -/
+theorem routeSlot_exec_rt (cfg : RouteCfg) (cm : ClusterMap) (rt : Option Nat) (slot : Option Nat) (n : Addr) :
+    routeSlot cfg cm rt slot = .exec n ↔ routeSlot cfg cm none slot = .exec n := by
+  rcases routeSlot_rt_cases cfg cm rt slot with h | ⟨s, a, _, _, _, h1, h2⟩
+  · rw [h]
+  · rw [h1, h2]
+    exact ⟨fun h => absurd h (sendRemoteDirectly_ne_exec _ _ _ _ _ _), fun h => absurd h (sendRemoteDirectly_ne_exec _ _ _ _ _ _)⟩
+
+/-- without active redirection the mark is irrelevant (same `MOVED`, same errors) -/
+theorem routeSlot_rt_no_remote (cfg : RouteCfg) (cm : ClusterMap) (rt : Option Nat) (slot : Option Nat)
+    (h : cm.remoteBackend = none) : routeSlot cfg cm rt slot = routeSlot cfg cm none slot := by
+  rcases routeSlot_rt_cases cfg cm rt slot with h' | ⟨_, _, _, _, hr, _, _⟩
+  · exact h'
+  · rw [h] at hr; cases hr
+
 theorem install_localNodes_contains {cfg : RouteCfg} {name : String} {loc peer : NodeRanges} {s : Nat} {a : Addr}
     (h : (ClusterMap.install cfg name loc peer).localMap.get s = some a) :
     (ClusterMap.install cfg name loc peer).localNodes.contains a = true := by
